@@ -273,8 +273,9 @@ Fixpoint descend (n : nat) (lvl : Z) (s : st) (cdf : Z -> dist) (ep : Z) (ed : d
             descend n' (lvl - 1) s cdf e' d'
   end.
 
-Definition total_links (s : st) : nat :=
-  fold_right (fun nd acc => (fold_right (fun l a => (length l + a)%nat) O (n_nbrs nd) + acc)%nat) O (nodes s).
+(* every neighbour id stored anywhere in the graph *)
+Definition all_links (s : st) : list Z := flat_map (fun nd => concat (n_nbrs nd)) (nodes s).
+Definition total_links (s : st) : nat := length (all_links s).
 
 (* model fuel for one beam search: every iteration pops a candidate, every candidate is a distinct
    visited id, every visited id but the entry occurs in some neighbour list *)
